@@ -116,9 +116,9 @@ func cmdCheck(args []string) int {
 		fmt.Fprintln(os.Stderr, "--prop required")
 		return 2
 	}
-	to := 30
+	to := 60
 	if *tier == "thorough" {
-		to = 120
+		to = 180
 	}
 	if *timeout > 0 {
 		to = *timeout
